@@ -21,6 +21,12 @@ def _level0(seed):
     return decks.level0_deck(seed, n_cells=3 + seed % 3, n_surfs=3 + seed % 4), {}
 
 
+@family('fill')
+def _fill(seed):
+    from . import decks
+    return decks.fill_deck(seed), {}
+
+
 def _norm_label(f):
     lab = f['label']
     if lab in ('structure', 'conversion-raised'):
